@@ -182,7 +182,14 @@ func cmdCheck(args []string) int {
 				samples = append(samples, map[string]interface{}{"harness": hs.Name, "witness_for": l, "inputs": w.Inputs})
 			}
 			if hs.Replay == "native" && (i < 3 || *tier == "thorough") {
-				ok, note := replayNative(hs.Name, "reach:"+l, w.Inputs, nil)
+				// up to 4 witnesses (from different paths) per label: one must reproduce natively
+				ok, note := false, ""
+				for _, ww := range x.ReachedAll[l] {
+					ok, note = replayNative(hs.Name, "reach:"+l, ww.Inputs, nil)
+					if ok {
+						break
+					}
+				}
 				if ok {
 					validated++
 					rep.Replayed++
@@ -198,7 +205,7 @@ func cmdCheck(args []string) int {
 		var ids []string
 		for _, f := range x.Failures {
 			// a harness shared between properties reports each assertion under the property its id names
-			if f.Kind == "assert" && !strings.HasPrefix(f.AssertID, id+".") {
+			if f.Kind == "assert" && !assertionBelongsTo(f.AssertID, id) {
 				continue
 			}
 			if f.Kind == "panic" && id != "C09" && !hs.Panics {
@@ -331,6 +338,20 @@ func cmdCheck(args []string) int {
 	fmt.Printf("PASS property=%s tier=%s paths=%d ssa_steps=%d queries(sat=%d,unsat=%d) replayed=%d wall=%.1fs\n", id, *tier, totalStates, totalSteps,
 		smt.GlobalStats.Sat, smt.GlobalStats.Unsat, validated, wall)
 	return 0
+}
+
+// assertionBelongsTo: assertion ids are "<props>.<name>" with <props> a comma-separated list of property ids.
+func assertionBelongsTo(aid, prop string) bool {
+	i := strings.IndexByte(aid, '.')
+	if i < 0 {
+		return false
+	}
+	for _, p := range strings.Split(aid[:i], ",") {
+		if p == prop {
+			return true
+		}
+	}
+	return false
 }
 
 func nonNil(s []string) []string {
